@@ -19,6 +19,9 @@
 //     The first read of a party with tag r1 is its nonce k_i (RandomNonIdentity).
 //   - Messages: round 1: Round1Broadcast + Round1P2P, round 2: Round2Broadcast, round 3: the
 //     PartialSignature, passed to the aggregator as a broadcast with recipient 0.
+//   - cfg.API = "runner": the parties are made with signing.NewRunner and run concurrently through
+//     network.Router over an in-memory transport (drive/keys.RunRunners); messages then do not pass
+//     through drive.Pass, the tape mark is "run" throughout, and only aggregator 0 aggregates.
 //   - Aggregation: "aggregator 0" is signing.NewAggregator (not a cosigner) on all partial
 //     signatures; in addition every party of the quorum aggregates as
 //     signing.NewCosigningAggregator (round 4 step of that party; a failure becomes the
@@ -32,6 +35,7 @@ import (
 	"fmt"
 	"math/big"
 	"sync"
+	"time"
 
 	"github.com/bronlabs/bron-crypto/pkg/base/algebra"
 	"github.com/bronlabs/bron-crypto/pkg/base/curves/k256"
@@ -44,6 +48,7 @@ import (
 	rl22 "github.com/bronlabs/bron-crypto/pkg/mpc/signatures/schnorr/lindell22"
 	"github.com/bronlabs/bron-crypto/pkg/mpc/signatures/schnorr/lindell22/keygen"
 	"github.com/bronlabs/bron-crypto/pkg/mpc/signatures/schnorr/lindell22/signing"
+	"github.com/bronlabs/bron-crypto/pkg/network"
 	"github.com/bronlabs/bron-crypto/pkg/proofs/sigma/compiler/fiatshamir"
 	"github.com/bronlabs/bron-crypto/pkg/signatures/schnorrlike"
 	"github.com/bronlabs/bron-crypto/pkg/signatures/schnorrlike/bip340"
@@ -239,45 +244,60 @@ func run[
 	}
 	variant := scheme.Variant()
 
-	cs := map[sharing.ID]*signing.Cosigner[GE, S, M]{}
-	e.Construct(func(id sharing.ID) error {
-		c, err := signing.NewCosigner[GE, S, M](ctxs[id], shards[id], fiatshamir.Name, variant, e.Tr.Tapes[id])
-		if err != nil {
-			return err
-		}
-		cs[id] = c
-		return nil
-	})
-	b1 := map[sharing.ID]*signing.Round1Broadcast[GE, S, M]{}
-	u1 := map[sharing.ID]map[sharing.ID]*signing.Round1P2P[GE, S, M]{}
-	e.Each(1, func(id sharing.ID) error {
-		b, u, err := cs[id].Round1()
-		if err != nil {
-			return err
-		}
-		b1[id], u1[id] = b, keys.Thaw(u)
-		return nil
-	})
-	ib1, iu1 := keys.Deliver(e, 1, b1, u1)
-	b2 := map[sharing.ID]*signing.Round2Broadcast[GE, S, M]{}
-	e.Each(2, func(id sharing.ID) error {
-		b, err := cs[id].Round2(keys.Freeze(ib1[id]), keys.Freeze(iu1[id]))
-		if err != nil {
-			return err
-		}
-		b2[id] = b
-		return nil
-	})
-	ib2, _ := keys.Deliver[*signing.Round2Broadcast[GE, S, M], keys.None](e, 2, b2, nil)
 	psigs := map[sharing.ID]*rl22.PartialSignature[GE, S]{}
-	e.Each(3, func(id sharing.ID) error {
-		ps, err := cs[id].Round3(keys.Freeze(ib2[id]), msg)
-		if err != nil {
-			return err
+	cs := map[sharing.ID]*signing.Cosigner[GE, S, M]{}
+	if cfg.API == "runner" {
+		runners := map[sharing.ID]network.Runner[*rl22.PartialSignature[GE, S]]{}
+		e.Construct(func(id sharing.ID) error {
+			r, err := signing.NewRunner[GE, S, M](ctxs[id], shards[id], fiatshamir.Name, variant, msg, e.Tr.Tapes[id])
+			if err != nil {
+				return err
+			}
+			runners[id] = r
+			return nil
+		})
+		for id, ps := range keys.RunRunners(e, runners, 20*time.Minute) {
+			psigs[id] = ps
 		}
-		psigs[id] = ps
-		return nil
-	})
+	} else {
+		e.Construct(func(id sharing.ID) error {
+			c, err := signing.NewCosigner[GE, S, M](ctxs[id], shards[id], fiatshamir.Name, variant, e.Tr.Tapes[id])
+			if err != nil {
+				return err
+			}
+			cs[id] = c
+			return nil
+		})
+		b1 := map[sharing.ID]*signing.Round1Broadcast[GE, S, M]{}
+		u1 := map[sharing.ID]map[sharing.ID]*signing.Round1P2P[GE, S, M]{}
+		e.Each(1, func(id sharing.ID) error {
+			b, u, err := cs[id].Round1()
+			if err != nil {
+				return err
+			}
+			b1[id], u1[id] = b, keys.Thaw(u)
+			return nil
+		})
+		ib1, iu1 := keys.Deliver(e, 1, b1, u1)
+		b2 := map[sharing.ID]*signing.Round2Broadcast[GE, S, M]{}
+		e.Each(2, func(id sharing.ID) error {
+			b, err := cs[id].Round2(keys.Freeze(ib1[id]), keys.Freeze(iu1[id]))
+			if err != nil {
+				return err
+			}
+			b2[id] = b
+			return nil
+		})
+		ib2, _ := keys.Deliver[*signing.Round2Broadcast[GE, S, M], keys.None](e, 2, b2, nil)
+		e.Each(3, func(id sharing.ID) error {
+			ps, err := cs[id].Round3(keys.Freeze(ib2[id]), msg)
+			if err != nil {
+				return err
+			}
+			psigs[id] = ps
+			return nil
+		})
+	}
 
 	atAgg := hashmap.NewComparable[sharing.ID, *rl22.PartialSignature[GE, S]]()
 	for _, id := range e.IDs {
@@ -343,7 +363,10 @@ func run[
 		e.Tr.Outputs[0] = text(res.Sig)
 		return nil
 	})
-	// every party as cosigning aggregator
+	// every party as cosigning aggregator (not reachable through the runner API)
+	if cfg.API == "runner" {
+		return res
+	}
 	e.Each(4, func(id sharing.ID) error {
 		agg, err := signing.NewCosigningAggregator(cs[id], pkm, scheme)
 		if err != nil {
